@@ -14,7 +14,8 @@ NAMINGS = ['str', 'revint', 'tuple', 'mixed', 'strcollide', 'strlen', 'opaque']
 CONTAINERS = ['list', 'set', 'tuple']
 ATOM_MAPS = [{'p': 'alpha_long_name', 'q': 'Zq'}, {'p': 'q', 'q': 'p'}, {'p': 'a b', 'q': 'x-1'},
              {'p': 'pp', 'q': 'p_'}, {'p': 'fairness', 'q': 'E'}, {'p': 'q', 'q': 'qq'},
-             {'p': 'p', 'q': 'p0'}, {'p': 'z', 'q': 'a'}, {'p': '[E(X(q))]', 'q': 'q'}]
+             {'p': 'p', 'q': 'p0'}, {'p': 'z', 'q': 'a'}, {'p': '[E(X(q))]', 'q': 'q'},
+             {'p': '{p}', 'q': 'q{0}'}, {'p': 'p%s', 'q': '%(q)s'}, {'p': 'p}', 'q': '{'}]
 
 
 def top(checker, f):
